@@ -1,12 +1,12 @@
 """Per-property run budgets.  quick: every-change check; thorough: deep exploration."""
 RUNS = {
     #        quick   thorough
-    "c03": (1600, 60000),
+    "c03": (2400, 100000),
     "c04": (2400, 120000),
     "c11": (1600, 60000),
     "c12": (2400, 100000),
     "c13": (3000, 150000),
-    "c14": (2400, 100000),
+    "c14": (2000, 100000),
     "c17": (6000, 400000),
     "c18": (2000, 60000),
 }
